@@ -16,6 +16,8 @@ pub enum Obs {
     CostUpdate { key: u64, prev: i64, cost: i64 },
     /// `policy.clear()` runs (under the policy mutex)
     PolicyCleared,
+    /// the cleanup tick that became due at `due_ns` was taken by the processor's event loop
+    TickTaken { due_ns: u64 },
     /// the policy worker applied a batch
     Applied { keys: Vec<u64> },
 }
@@ -36,5 +38,15 @@ pub fn emit(o: Obs) {
         if let Some(f) = g.as_ref() {
             f(o)
         }
+    }
+}
+
+/// Tick events are only of interest to the starvation rule; a clock jump of hours makes an
+/// interval timer fire a hundred thousand times, so they are off unless asked for.
+pub static TICK_EVENTS: std::sync::atomic::AtomicBool = std::sync::atomic::AtomicBool::new(false);
+
+pub fn emit_tick(due_ns: u64) {
+    if TICK_EVENTS.load(std::sync::atomic::Ordering::SeqCst) {
+        emit(Obs::TickTaken { due_ns });
     }
 }
